@@ -238,7 +238,8 @@ def check(ctx: Ctx) -> None:
             k0 = K
             if kind == "env":
                 envkeys = [t[1][1] for (t, v) in cond if v is True and t[0] == "pcall" and isinstance(t[1], tuple) and t[1][0] == "meth" and t[1][2] == "startswith" and t[2] == (const("env:"),)]
-                if not envkeys or K != ("slice", envkeys[-1], const(4), None):
+                # the name after the prefix: `key[4:]`, or `key.removeprefix("env:")` (the same string once startswith held)
+                if not envkeys or K not in (("slice", envkeys[-1], const(4), None), ("pcall", ("meth", envkeys[-1], "removeprefix"), (const("env:"),), ())):
                     ob.violation(fx, ev.node, "env: keys are not collected as env[<name after 'env:'>] = value")
                     if not envkeys:
                         continue
